@@ -398,12 +398,14 @@ struct EngWorld {
     ex_idx: Vec<usize>,
     /// instrument label -> InstrumentIndex position
     ins_idx: Vec<usize>,
-    _rx: UnboundedRx<ExecutionRequest>,
+    _rx: Vec<UnboundedRx<ExecutionRequest>>,
 }
 
-fn eng_world(trading: TradingState) -> EngWorld {
+/// `links[label]`: `H` healthy, `C` closed (receiver dropped), `M` missing (`None` slot); `order`: the order
+/// in which the exchange labels are added to `IndexedInstruments` (= their ExchangeIndex order)
+fn eng_world_cfg(trading: TradingState, links: [char; 3], order: [usize; 3]) -> EngWorld {
     let mut builder = IndexedInstruments::builder();
-    for k in 0..3usize {
+    for k in order {
         builder = builder.add_instrument(Instrument::spot(
             EXCHANGES[k],
             format!("i{k}"),
@@ -428,18 +430,24 @@ fn eng_world(trading: TradingState) -> EngWorld {
                 .unwrap()
         })
         .collect();
-    let (tx0, rx0) = mpsc_unbounded::<ExecutionRequest>();
-    let mut tx0 = Some(tx0);
+    let mut rxs: Vec<UnboundedRx<ExecutionRequest>> = vec![];
     let txs: Vec<(ExchangeId, Option<TestTx>)> = instruments
         .exchanges()
         .iter()
         .map(|exchange| {
-            if exchange.value == EXCHANGES[0] {
-                (exchange.value, Some(TestTx::Real(tx0.take().unwrap())))
-            } else {
-                let (tx, rx) = mpsc_unbounded::<ExecutionRequest>();
-                drop(rx);
-                (exchange.value, Some(TestTx::Real(tx)))
+            let label = EXCHANGES.iter().position(|e| *e == exchange.value).unwrap();
+            match links[label] {
+                'H' => {
+                    let (tx, rx) = mpsc_unbounded::<ExecutionRequest>();
+                    rxs.push(rx);
+                    (exchange.value, Some(TestTx::Real(tx)))
+                }
+                'C' => {
+                    let (tx, rx) = mpsc_unbounded::<ExecutionRequest>();
+                    drop(rx);
+                    (exchange.value, Some(TestTx::Real(tx)))
+                }
+                _ => (exchange.value, None),
             }
         })
         .collect();
@@ -450,7 +458,7 @@ fn eng_world(trading: TradingState) -> EngWorld {
         EngStrategy::default(),
         TestRisk,
     );
-    EngWorld { engine, ex_idx, ins_idx, _rx: rx0 }
+    EngWorld { engine, ex_idx, ins_idx, _rx: rxs }
 }
 
 /// `ex:cid` -> (exchange label, cid)
@@ -501,6 +509,32 @@ fn eng_opens(w: &EngWorld, g: &[String]) -> Vec<ReqO> {
 /// orders of one instrument in hash-map order (all of them on the same exchange, so the audit's errors
 /// do not depend on that order).
 fn eng(toks: &[String], lines: &mut Vec<String>) {
+    eng_with(['H', 'C', 'C'], [0, 1, 2], toks, lines)
+}
+
+/// `engl <links> <order> on|off <ev> ...`: the same call on an engine whose three execution links are wired
+/// as `<links>` says (three letters by exchange LABEL: `H` healthy, `C` closed, `M` no transmitter) and whose
+/// exchanges were added to `IndexedInstruments` in `<order>` (a permutation of `012`: ExchangeIndex k is the
+/// label `<order>[k]`). `eng` = `engl HCC 012`. Anything else is `bad-op`.
+fn engl(toks: &[String], lines: &mut Vec<String>) {
+    if toks.len() < 4 {
+        lines.push("bad-op".into());
+        return;
+    }
+    let l: Vec<char> = toks[0].chars().collect();
+    let o: Vec<usize> = toks[1].chars().filter_map(|c| c.to_digit(10).map(|d| d as usize)).collect();
+    let links_ok = l.len() == 3 && l.iter().all(|c| matches!(c, 'H' | 'C' | 'M'));
+    let mut sorted = o.clone();
+    sorted.sort();
+    let order_ok = toks[1].len() == 3 && sorted == vec![0, 1, 2];
+    if !links_ok || !order_ok || !matches!(toks[2].as_str(), "on" | "off") {
+        lines.push("bad-op".into());
+        return;
+    }
+    eng_with([l[0], l[1], l[2]], [o[0], o[1], o[2]], &toks[2..], lines)
+}
+
+fn eng_with(links: [char; 3], order: [usize; 3], toks: &[String], lines: &mut Vec<String>) {
     let trading = match toks[0].as_str() {
         "on" => TradingState::Enabled,
         "off" => TradingState::Disabled,
@@ -532,7 +566,7 @@ fn eng(toks: &[String], lines: &mut Vec<String>) {
             return;
         }
     }
-    let mut w = eng_world(trading);
+    let mut w = eng_world_cfg(trading, links, order);
     let algo_c = eng_cancels(&w, &groups[n_cmd_groups]);
     let algo_o = eng_opens(&w, &groups[n_cmd_groups + 1]);
     let time = time_ms(1);
@@ -600,7 +634,15 @@ fn eng(toks: &[String], lines: &mut Vec<String>) {
     };
     // label of the exchange an `ExecutionChannelTerminated` error names
     let label = |e: &UnrecoverableEngineError| -> String {
-        let s = err_id(e);
+        let s = match e {
+            // a missing link: "failed to find ExecutionTx for ExchangeIndex: ExchangeIndex(k). Available: ..."
+            UnrecoverableEngineError::IndexError(barter_instrument::index::error::IndexError::ExchangeIndex(m))
+                if m.contains("for ExchangeIndex: ExchangeIndex(") =>
+            {
+                m.split_once("for ExchangeIndex: ").unwrap().1.to_string()
+            }
+            _ => err_id(e),
+        };
         match s.strip_prefix("ExchangeIndex(").and_then(|r| r.split_once(')')) {
             Some((idx, _)) => {
                 let idx: usize = idx.parse().unwrap();
@@ -843,6 +885,7 @@ fn run() {
                     obs_act_unrec(&act.unrecoverable_errors(), lines);
                 }
                 "eng" => eng(rest, lines),
+                "engl" => engl(rest, lines),
                 other => panic!("bad op {other}"),
             }
         }
@@ -1167,7 +1210,72 @@ fn generate(seed: u64, n_cases: usize, tier: &str) {
             out.line(domain_op(&mut drng, f));
         }
     }
+    // configuration-shape family (`cfg<id>`, own random stream; the cases above stay as they are): `eng` fixes the
+    // assembly of the engine (exchange 0 healthy at ExchangeIndex 0, exchanges 1 and 2 closed, labels in index
+    // order). `engl` varies it: every link pattern over healthy / closed / missing (`None` slot, also BEFORE a
+    // linked exchange; all healthy; none healthy), exchange labels added in any order (ExchangeIndex != label).
+    let mut crng = Rng::new(seed ^ 0xCF_61_C0_3A_5E_ED);
+    for _ in 0..n_cases / 8 {
+        id += 1;
+        out.case(format!("cfg{id}"));
+        for _ in 0..crng.range(1, 3) {
+            out.line(cfg_op(&mut crng));
+        }
+    }
+    if tier == "thorough" {
+        // every link pattern x every exchange order: a failing-capable ClosePositions command and an algo tick
+        // addressing all three exchanges
+        for l in 0..27usize {
+            let links: String = [l / 9, (l / 3) % 3, l % 3].iter().map(|k| ['H', 'C', 'M'][*k]).collect();
+            for order in ["012", "021", "102", "120", "201", "210"] {
+                id += 1;
+                out.case(format!("cfgx{id}"));
+                out.line(format!("engl {links} {order} on cmdx 0:1 2:2 / 1:4 2:5 0:6 / 1:7 / 0:8"));
+                out.line(format!("engl {links} {order} on mkt / 2:1 1:2 / 0:4 1:5 2:6"));
+                out.line(format!("engl {links} {order} off cmdc 2:1 0:2 1:3 / 0:7 / 1:8"));
+            }
+        }
+    }
     out.flush();
+}
+
+/// one `engl` op: random link letters by label, random exchange order, requests over all three exchanges
+fn cfg_op(rng: &mut Rng) -> String {
+    let links: String = (0..3)
+        .map(|_| match rng.below(100) {
+            0..=49 => 'H',
+            50..=74 => 'C',
+            _ => 'M',
+        })
+        .collect();
+    let order = *rng.pick(&["012", "021", "102", "120", "201", "210", "201", "120"]);
+    let mut next = 0u64;
+    let mut rq = |rng: &mut Rng| -> String {
+        let len = rng.below(4);
+        (0..len)
+            .map(|_| {
+                next += 1;
+                let cid = if rng.chance(15) { 5000 + next } else { next };
+                format!("{}:{cid}", rng.below(3))
+            })
+            .collect::<Vec<_>>()
+            .join(" ")
+    };
+    let onoff = if rng.chance(70) { "on" } else { "off" };
+    let ev = *rng.pick(&["shutdown", "cmdc", "cmdo", "cmdk", "cmdx", "cmdx", "cmdk", "cmdc", "ts_on", "ts_off", "mkt", "mktre", "accre"]);
+    let g0 = match ev {
+        "cmdc" | "cmdo" => rq(rng),
+        "cmdk" => {
+            let mut v: Vec<String> = rq(rng).split(' ').filter(|t| !t.is_empty()).map(String::from).collect();
+            v.sort_by_key(|t| t.split_once(':').unwrap().0.parse::<u64>().unwrap());
+            v.join(" ")
+        }
+        "cmdx" => format!("{} / {}", rq(rng), rq(rng)),
+        _ => String::new(),
+    };
+    let g1 = rq(rng);
+    let g2 = rq(rng);
+    format!("engl {links} {order} {onoff} {ev} {g0} / {g1} / {g2}").replace("  ", " ").trim_end().to_string()
 }
 
 const D_ITEMS: &[i64] = &[i64::MIN, i64::MIN + 1, -2, -1, 0, 1, 3, i64::MAX - 1, i64::MAX];
